@@ -139,6 +139,12 @@ class SymContext(object):
         from .explore import PathAbort
         raise PathAbort("cut")
 
+    def use_lemma(self, name, *args):
+        """assume an instance of a ghost lemma that is proved by its own contract"""
+        from contracts import lemmas
+        self.ctx.notes.append(('lemma', name))
+        self.ctx.assume(self._sym.zbool(lemmas.LEMMAS[name](*args)))
+
     def known(self, cond):
         return self.ctx.known(cond)
 
@@ -232,6 +238,14 @@ class SymContext(object):
         from . import models
         self.ip.np_roots_model = self._I.Builtin('numpy.roots(model)', lambda ip, a, k: models.CoefArr(list(fn(a[0]))))
 
+    def numpy_floats(self, on=True):
+        """the code under contract divides numpy scalars: x/0 and log(0) are inf/nan values
+        (with a warning), not exceptions"""
+        self.ip.numpy_floats = on
+
+    def is_finite(self, v):
+        return not isinstance(v, self._I.NF)
+
     def merge_ifs(self, mode=True):
         """if-merging into guarded list elements (DESIGN.md 1.4); 'if-only' merges statements
         but forks on comprehension filters"""
@@ -315,6 +329,9 @@ class ConcContext(object):
 
     def known(self, cond):
         return bool(cond)
+
+    def use_lemma(self, name, *args):
+        pass
 
     def decide(self, cond):
         return bool(cond)
@@ -426,6 +443,13 @@ class ConcContext(object):
 
     def merge_ifs(self, mode=True):
         pass
+
+    def numpy_floats(self, on=True):
+        pass
+
+    def is_finite(self, v):
+        import math
+        return math.isfinite(v)
 
     def present(self, res, F, i):
         return sum(1 for x in res if x == F[i]) == 1
